@@ -427,11 +427,27 @@ pub fn run_dec_check(ctx: &Ctx, check: &DecCheck) -> Stats {
                         _ => stream.push(c),
                     }
                 }
-                stream.extend_from_slice(a);
+                // the atom once, or three times (several errors in one long call: the with- and the
+                // without-replacement length estimates differ by more than the slack)
+                for _ in 0..(if j % 2 == 0 { 1 } else { 3 }) {
+                    stream.extend_from_slice(a);
+                }
                 stream.extend_from_slice(if is16 { if algo == Algo::Utf16(true) { b"\x00t\x00a\x00i\x00l" } else { b"t\x00a\x00i\x00l\x00" } } else { b"tail" });
-                for &sink in &check.sinks {
+                let mut sinks = check.sinks.clone();
+                if !sinks.contains(&Sink::String) {
+                    // a String with more than a page of spare capacity is a receiver of its own
+                    sinks.push(Sink::String);
+                }
+                for &sink in &sinks {
                     for &repl in &check.repls {
-                        for caps in [vec![], vec![block / 2 + 3], vec![block + 1]] {
+                        let mut cap_list = vec![vec![], vec![block / 2 + 3], vec![block + 1]];
+                        if let Some(first) = (check.cap_patterns)(sink).into_iter().next() {
+                            if first.iter().any(|c| *c >= crate::drive_dec::CAP_QUERY_EXACT) {
+                                // checks whose patterns ask the length queries (C07): the whole long call sized by the query
+                                cap_list.push(first);
+                            }
+                        }
+                        for caps in cap_list {
                             let h = DecHistory { enc, mode: check.modes[0], sink, repl, stream: stream.clone(), cuts: vec![], last_on_empty: j & 1 == 1, caps, fill: check.fills[j % check.fills.len()], align: j, sinks_per_call: vec![], repls_per_call: vec![] };
                             st.evals += 1;
                             st.class("sequence-straddling-a-power-of-two-offset");
